@@ -77,10 +77,16 @@ def _child(conn, task):
         resource.setrlimit(resource.RLIMIT_AS, (MEMORY_NET if hard == resource.RLIM_INFINITY else min(MEMORY_NET, hard), hard))
     except (ImportError, ValueError, OSError):
         pass
-    # a RecursionError that strikes while an interpreter hook runs (Hypothesis' gc callback during a deliberately deep evaluation) cannot be raised and
-    # is reported on stderr as "Exception ignored in ...": that report is noise, the check itself handles the RecursionError of the evaluation
-    default_hook = sys.unraisablehook
-    sys.unraisablehook = lambda u: None if u.exc_type is RecursionError else default_hook(u)
+    # Hypothesis times garbage collections through a gc callback (only used for its deadline, which the checks switch off). When a collection starts
+    # while a deliberately deep evaluation has used up the stack, that callback cannot even be entered and CPython prints "Exception ignored in ...
+    # RecursionError" on stderr - noise (the check handles the RecursionError of the evaluation itself). So the callback is not installed here.
+    try:
+        import gc
+        from hypothesis.internal.conjecture import junkdrawer
+        junkdrawer._gc_initialized = True       # pylint: disable=protected-access
+        gc.callbacks[:] = [cb for cb in gc.callbacks if 'gc_cumulative_time' not in getattr(cb, '__qualname__', '')]
+    except Exception:  # pylint: disable=broad-except
+        pass
     try:
         conn.send(_worker(task))
     finally:
